@@ -40,6 +40,15 @@
       others keeping their (arrival) order (`filter` = `erase`; a swap-remove does not satisfy this);
       `sibling_order_after_delete_example` — a concrete run (4 siblings, the 2nd invalid, the 3rd and 4th tie) where that
       order decides the fall-back tip. Proofs/C06Order.
+    * VALIDITY (fifth pass, after the independent audit): the invariant `ChainInv U E c` now carries (a) COMPLETENESS w.r.t. the
+      ghost list `E` of admitted deliveries — an admitted block is a node of the tree unless it or an ancestor fails `commitTxs`
+      with the scripts checked on the replay of its parent's branch (`Excused`, `InvalidOnReplay`; step form
+      `only_invalid_blocks_are_removed`; `tip_beats_every_valid_admitted_block` = `tip_has_max_work` over the admitted blocks
+      whose branch is valid) — and (b) SCRIPT VALIDITY of the active branch (`active_branch_scripts_valid`,
+      `commitTxs_checked_iff`); `failed_reorg_no_residue` gained both. Proofs/C06Ext; the reorganisation specs of
+      Proofs/C06Reorg and the delivery lemmas of Proofs/C06Deliver were extended in place.
+    * BLOCK LOOK-UPS: `deliverIdx` (8-byte `BlockIndex` key + whole-hash comparison, as the code since fix 533896f3; run by
+      the oracle) equals `deliver` under `KeyOK` (`deliverIdx_is_deliver`); `prefix_only_parent_is_unknown`. Proofs/C06Idx.
   What the statement does NOT cover (assumptions of `BlockTree`, all explicit): branches longer than 2560 blocks (undo data
   not written for the early blocks of a long ParseTillBlock, undo files pruned and keyed by height only); blocks re-using a
   txid that is still unspent on their own branch; the code's float64 work sums (the model compares exact rationals — known
@@ -401,78 +410,8 @@ theorem active_branch_scripts_valid (r bits : Nat) (U ds : List Block) (hbits : 
 `commitTxs` accepts with `trusted = true` and whose scripts all pass is accepted, with the same changes, with
 `trusted = false`; and acceptance with the scripts checked implies `scriptsPass`. -/
 theorem commitTxs_checked_iff (u : DB) (h rwd : Nat) (txs : List Tx) (ch : Changes) :
-    commitTxs u h rwd false txs = .ok ch ↔ (commitTxs u h rwd true txs = .ok ch ∧ scriptsPass txs = true) := by
-  constructor
-  · intro hok
-    refine ⟨?_, commitTxs_false_scripts u h rwd txs ch hok⟩
-    cases ht : commitTxs u h rwd true txs with
-    | error e =>
-      obtain ⟨e', he'⟩ := commitTxs_error_false u h rwd true txs e ht
-      rw [hok] at he'; cases he'
-    | ok ch' =>
-      unfold commitTxs at hok ht
-      simp only [bind, Except.bind, pure, Except.pure] at hok ht
-      split at hok
-      · simp only [throw, throwThe, MonadExceptOf.throw] at hok; cases hok
-      · rename_i hne
-        simp only [hne, Bool.false_eq_true, if_false] at ht
-        split at hok
-        · cases hok
-        · rename_i r0 hr0
-          simp only [hr0] at ht
-          obtain ⟨st, sin, sout, ok⟩ := r0
-          simp only [Bool.not_false, Bool.true_and, Bool.not_true, Bool.false_and, Bool.false_eq_true, if_false] at hok ht
-          split at hok
-          · simp only [throw, throwThe, MonadExceptOf.throw] at hok; cases hok
-          · split at hok
-            · simp only [throw, throwThe, MonadExceptOf.throw] at hok; cases hok
-            · rename_i hlt
-              simp only [hlt, if_false] at ht
-              rw [← ht, ← hok]
-  · rintro ⟨hok, hs⟩
-    cases hf : commitTxs u h rwd false txs with
-    | ok ch' =>
-      unfold commitTxs at hok hf
-      simp only [bind, Except.bind, pure, Except.pure] at hok hf
-      split at hok
-      · simp only [throw, throwThe, MonadExceptOf.throw] at hok; cases hok
-      · rename_i hne
-        simp only [hne, Bool.false_eq_true, if_false] at hf
-        split at hok
-        · cases hok
-        · rename_i r0 hr0
-          simp only [hr0] at hf
-          obtain ⟨st, sin, sout, ok⟩ := r0
-          simp only [Bool.not_false, Bool.true_and, Bool.not_true, Bool.false_and, Bool.false_eq_true, if_false] at hok hf
-          split at hf
-          · simp only [throw, throwThe, MonadExceptOf.throw] at hf; cases hf
-          · split at hok
-            · simp only [throw, throwThe, MonadExceptOf.throw] at hok; cases hok
-            · rename_i hlt
-              simp only [hlt, if_false] at hf
-              rw [← hf, ← hok]
-    | error e =>
-      exfalso
-      unfold commitTxs at hok hf
-      simp only [bind, Except.bind, pure, Except.pure] at hok hf
-      split at hok
-      · simp only [throw, throwThe, MonadExceptOf.throw] at hok; cases hok
-      · rename_i hne
-        simp only [hne, Bool.false_eq_true, if_false] at hf
-        split at hok
-        · cases hok
-        · rename_i r0 hr0
-          simp only [hr0] at hf
-          obtain ⟨st, sin, sout, ok⟩ := r0
-          have hflag := procTxs_flag u h txs true _ st sin sout ok hr0
-          have hok' : ok = true := by rw [hflag]; exact hs
-          subst hok'
-          simp only [Bool.not_false, Bool.true_and, Bool.not_true, Bool.false_and, Bool.false_eq_true, if_false] at hok hf
-          split at hok
-          · simp only [throw, throwThe, MonadExceptOf.throw] at hok; cases hok
-          · rename_i hlt
-            simp only [hlt, if_false] at hf
-            cases hf
+    commitTxs u h rwd false txs = .ok ch ↔ (commitTxs u h rwd true txs = .ok ch ∧ scriptsPass txs = true) :=
+  commitTxs_checked_iff' u h rwd txs ch
 
 /-- **First seen wins ties when a block is delivered**: a side block whose cumulative work (its parent's work plus its own
 difficulty, exact) is NOT strictly greater than the tip's leaves the tip where it is — so among equal-work branches the
